@@ -10,6 +10,15 @@ From FEC Require Import Generated.FEConsts Generated.CppFramerConsts Base.Bytes 
 Import ListNotations.
 Open Scope N_scope.
 
+(* The constants regenerated on every run from defs.h / fusion_engine_framer.cc / crc.cc agree with the wire
+   format the SPEC judge is written with (sync bytes, header size and field offsets, clamp, alignment). *)
+Theorem C07_source_constants :
+  CPP_SYNC0 = SYNC0 /\ CPP_SYNC1 = SYNC1 /\ FR_HEADER_SIZE = N.of_nat HEADER_SIZE /\ FR_HEADER_SIZE = 24 /\
+  FR_OFF_RESERVED = 2 /\ FR_OFF_CRC = 4 /\ FR_OFF_CRC_START = 8 /\ FR_OFF_PSIZE = 16 /\
+  FR_CLAMP = 2147483647 /\ FR_ALIGN_MASK = 3 /\ FR_MANAGED_EXTRA = 3.
+Proof. exact fe_consts_agree. Qed.
+Print Assumptions C07_source_constants.
+
 (* MAIN: for every buffer (user at any address / managed, any capacity), every initial memory content and
    every history of OnData / Reset / SetBuffer calls on bytes, the model of the repaired code never leaves
    its buffer and never runs out of fuel (the run is [Ok]), and each call returns the total size of, and
